@@ -18,6 +18,8 @@ import Proofs.Commute
 import Proofs.CommuteMarkup
 import Proofs.CommuteSuccess
 import Proofs.CommuteSuccessR
+import Proofs.CommuteAround
+import Proofs.CommuteAroundDocs
 namespace PM.C17
 open PM
 
@@ -598,5 +600,212 @@ theorem commute_needs_guard :
     simp [v4a]
   · simp [n0, q, Node.kids, commuteGuard, insideLeft, insideRight]
 end NeedsGuard
+
+/-! ## pairs with a replace-around step (lift, wrap, set_node_markup, set_block_type)
+
+  A replace-around step `(from, to, gapFrom, gapTo, slice, insert)` touches the two ranges
+  `[from, gapFrom)` and `[gapTo, to)` and keeps the gap between them.  A step is *separated* from it when
+  it lies strictly before `from`, strictly after `to`, or strictly inside the kept gap (at least one
+  untouched token on either side).  `AroundShape` (Proofs/CommuteAroundDocs.lean) = the ranges are in
+  order, the slice is well-formed and `insert ≤ slice.size`: the shape of every replace-around step
+  the library builds, invariant under rebasing.
+  Helper lemmas: Proofs/CommuteAround.lean (splices, rebasing), Proofs/CommuteAroundDocs.lean. -/
+
+/-- **rebasing over a separated step never drops a replace-around step or the replace step**: the
+    three positions of a replace step relative to a replace-around step.  `δ1` = size change of the
+    replace step, `δX` / `δY` = size changes of the replace-around step's two ranges. -/
+theorem rebase_around_separated (f t gf gt ins f1 t1 : Nat) (sl s1 : Slice) (st b1 : Bool)
+    (hg : f ≤ gf ∧ gf ≤ gt ∧ gt ≤ t) (h1 : f1 ≤ t1) :
+    let A := Step.replaceAround f t gf gt sl ins st
+    let R := Step.replace f1 t1 s1 b1
+    let δ1 : Int := s1.size - ((t1 : Int) - f1)
+    let δX : Int := (ins : Int) - ((gf : Int) - f)
+    let δY : Int := sl.size - ins - ((t : Int) - gt)
+    (t1 < f →
+      A.map R.getMap = some (.replaceAround ((f : Int) + δ1).toNat ((t : Int) + δ1).toNat
+        ((gf : Int) + δ1).toNat ((gt : Int) + δ1).toNat sl ins st) ∧
+      R.map A.getMap = some (.replace f1 t1 s1 false)) ∧
+    (gf < f1 → t1 < gt →
+      A.map R.getMap = some (.replaceAround f ((t : Int) + δ1).toNat gf ((gt : Int) + δ1).toNat sl ins st) ∧
+      R.map A.getMap = some (.replace ((f1 : Int) + δX).toNat ((t1 : Int) + δX).toNat s1 false)) ∧
+    (t < f1 →
+      A.map R.getMap = some A ∧
+      R.map A.getMap = some (.replace ((f1 : Int) + δX + δY).toNat ((t1 : Int) + δX + δY).toNat s1 false)) := by
+  intro A R δ1 δX δY
+  refine ⟨fun h => ⟨?_, ?_⟩, fun h h' => ⟨?_, ?_⟩, fun h => ⟨?_, ?_⟩⟩
+  · exact around_map_replace_before f t gf gt ins f1 t1 sl s1 st b1 hg h1 h
+  · exact replace_map_around_after f t gf gt ins f1 t1 sl s1 st b1 h1 h
+  · exact around_map_replace_gap f t gf gt ins f1 t1 sl s1 st b1 hg h1 h h'
+  · exact replace_map_around_gap f t gf gt ins f1 t1 sl s1 st b1 hg h1 h h'
+  · exact around_map_replace_after f t gf gt ins f1 t1 sl s1 st b1 hg h
+  · exact replace_map_around_before f t gf gt ins f1 t1 sl s1 st b1 hg h1 h
+
+/-- the same for two replace-around steps: the second one after the first one, or inside its gap
+    (the two remaining positions are these with the roles exchanged) -/
+theorem rebase_around_around (f t gf gt ins f' t' gf' gt' ins' : Nat) (sl sl' : Slice) (st st' : Bool)
+    (hg : f ≤ gf ∧ gf ≤ gt ∧ gt ≤ t) (hg' : f' ≤ gf' ∧ gf' ≤ gt' ∧ gt' ≤ t') :
+    let A := Step.replaceAround f t gf gt sl ins st
+    let B := Step.replaceAround f' t' gf' gt' sl' ins' st'
+    let δX : Int := (ins : Int) - ((gf : Int) - f)
+    let Δ : Int := ((ins : Int) - ((gf : Int) - f)) + (sl.size - ins - ((t : Int) - gt))
+    let Δ' : Int := ((ins' : Int) - ((gf' : Int) - f')) + (sl'.size - ins' - ((t' : Int) - gt'))
+    (t < f' →
+      A.map B.getMap = some A ∧
+      B.map A.getMap = some (.replaceAround ((f' : Int) + Δ).toNat ((t' : Int) + Δ).toNat
+        ((gf' : Int) + Δ).toNat ((gt' : Int) + Δ).toNat sl' ins' st')) ∧
+    (gf < f' → t' < gt →
+      A.map B.getMap = some (.replaceAround f ((t : Int) + Δ').toNat gf ((gt : Int) + Δ').toNat sl ins st) ∧
+      B.map A.getMap = some (.replaceAround ((f' : Int) + δX).toNat ((t' : Int) + δX).toNat
+        ((gf' : Int) + δX).toNat ((gt' : Int) + δX).toNat sl' ins' st')) := by
+  intro A B δX Δ Δ'
+  refine ⟨fun h => ⟨?_, ?_⟩, fun h h' => ⟨?_, ?_⟩⟩
+  · exact around_map_around_before f t gf gt ins f' t' gf' gt' ins' sl sl' st st' hg h
+  · exact around_map_around_after f t gf gt ins f' t' gf' gt' ins' sl sl' st st' hg hg' h
+  · exact around_map_around_outer f t gf gt ins f' t' gf' gt' ins' sl sl' st st' hg hg' h h'
+  · exact around_map_around_gap f t gf gt ins f' t' gf' gt' ins' sl sl' st st' hg hg' h h'
+
+/-- a shifted replace-around step of the library's shape, and a non-trivial instance of the rebasing
+    rule: wrapping `[3, 7)` (`insert = 1` of a 2-token slice) against an insertion of 2 tokens at 1 -/
+example : AroundShape 3 7 3 7 ⟨[.elem 1 [] [] []], 0, 0⟩ 1 ∧
+    (Step.replaceAround 3 7 3 7 ⟨[.elem 1 [] [] []], 0, 0⟩ 1 true).map
+      (Step.replace 1 1 ⟨[.text [120, 121] []], 0, 0⟩ false).getMap =
+      some (.replaceAround 5 9 5 9 ⟨[.elem 1 [] [] []], 0, 0⟩ 1 true) := by
+  constructor
+  · decide
+  · decide
+
+/-- **convergence, replace step vs. separated replace-around step, on tokens**: whenever all four
+    applications succeed, both orders give the same token sequence, namely the base document with the
+    three ranges replaced: `d[:f1] S1 d[t1:f] S[:ins] d[gf:gt] S[ins:] d[t:]` (replace step first),
+    `d[:f] S[:ins] d[gf:f1] S1 d[t1:gt] S[ins:] d[t:]` (replace step inside the gap),
+    `d[:f] S[:ins] d[gf:gt] S[ins:] d[t:f1] S1 d[t1:]` (replace step last) -/
+theorem commute_replace_around_toks (S : Schema) (d da db dab dba : Node) (f t gf gt ins f1 t1 : Nat)
+    (sl s1 : Slice) (st b1 : Bool) (A' R' : Step)
+    (hs : AroundShape f t gf gt sl ins)
+    (hsep : t1 < f ∨ (gf < f1 ∧ t1 < gt) ∨ t < f1)
+    (ha : S.apply (.replace f1 t1 s1 b1) d = .ok da)
+    (hb : S.apply (.replaceAround f t gf gt sl ins st) d = .ok db)
+    (hA' : (Step.replaceAround f t gf gt sl ins st).map (Step.replace f1 t1 s1 b1).getMap = some A')
+    (hR' : (Step.replace f1 t1 s1 b1).map (Step.replaceAround f t gf gt sl ins st).getMap = some R')
+    (hab : S.apply A' da = .ok dab) (hba : S.apply R' db = .ok dba) :
+    let L := ftoks d.kids
+    let X := sl.toks.take ins
+    let Y := sl.toks.drop ins
+    ftoks dba.kids = ftoks dab.kids ∧
+    (t1 < f → ftoks dab.kids = L.take f1 ++ s1.toks ++ (L.drop t1).take (f - t1) ++ X ++
+      (L.drop gf).take (gt - gf) ++ Y ++ L.drop t) ∧
+    (gf < f1 → t1 < gt → ftoks dab.kids = L.take f ++ X ++ (L.drop gf).take (f1 - gf) ++ s1.toks ++
+      (L.drop t1).take (gt - t1) ++ Y ++ L.drop t) ∧
+    (t < f1 → ftoks dab.kids = L.take f ++ X ++ (L.drop gf).take (gt - gf) ++ Y ++
+      (L.drop t).take (f1 - t) ++ s1.toks ++ L.drop t1) := by
+  intro L X Y
+  obtain ⟨_, h1, hl1, _⟩ := apply_replace_splice S d da f1 t1 s1 b1 ha
+  obtain ⟨_, hl, _, _⟩ := apply_around_aroundL S d db f t gf gt sl ins st hs hb
+  have hg := hs.2.2
+  have before : t1 < f → ftoks dba.kids = ftoks dab.kids ∧ ftoks dab.kids = L.take f1 ++ s1.toks ++
+      (L.drop t1).take (f - t1) ++ X ++ (L.drop gf).take (gt - gf) ++ Y ++ L.drop t := by
+    intro h
+    obtain ⟨e1, e2⟩ := commute_replace_around_before S d da db dab dba f t gf gt ins f1 t1 sl s1 st b1
+      A' R' hs h ha hb hA' hR' hab hba
+    exact ⟨e2, by rw [e1]; exact explicit_before L s1.toks X Y f1 t1 f gf gt t h1 (by omega) hg hl⟩
+  have gap : gf < f1 → t1 < gt → ftoks dba.kids = ftoks dab.kids ∧ ftoks dab.kids = L.take f ++ X ++
+      (L.drop gf).take (f1 - gf) ++ s1.toks ++ (L.drop t1).take (gt - t1) ++ Y ++ L.drop t := by
+    intro h h'
+    obtain ⟨e1, e2⟩ := commute_replace_around_gap S d da db dab dba f t gf gt ins f1 t1 sl s1 st b1
+      A' R' hs h h' ha hb hA' hR' hab hba
+    exact ⟨e2, by rw [e1]; exact explicit_gap L s1.toks X Y f1 t1 f gf gt t h1 (by omega) (by omega) hg hl⟩
+  have after : t < f1 → ftoks dba.kids = ftoks dab.kids ∧ ftoks dab.kids = L.take f ++ X ++
+      (L.drop gf).take (gt - gf) ++ Y ++ (L.drop t).take (f1 - t) ++ s1.toks ++ L.drop t1 := by
+    intro h
+    obtain ⟨e1, e2⟩ := commute_replace_around_after S d da db dab dba f t gf gt ins f1 t1 sl s1 st b1
+      A' R' hs h ha hb hA' hR' hab hba
+    exact ⟨e2, by rw [e1]; exact explicit_after L s1.toks X Y f1 t1 f gf gt t h1 (by omega) hg hl1⟩
+  refine ⟨?_, fun h => (before h).2, fun h h' => (gap h h').2, fun h => (after h).2⟩
+  rcases hsep with h | ⟨h, h'⟩ | h
+  · exact (before h).1
+  · exact (gap h h').1
+  · exact (after h).1
+
+/-- … hence equal documents (normal form) -/
+theorem commute_replace_around (S : Schema) (d da db dab dba : Node) (f t gf gt ins f1 t1 : Nat)
+    (sl s1 : Slice) (st b1 : Bool) (A' R' : Step)
+    (hs : AroundShape f t gf gt sl ins)
+    (hsep : t1 < f ∨ (gf < f1 ∧ t1 < gt) ∨ t < f1)
+    (ha : S.apply (.replace f1 t1 s1 b1) d = .ok da)
+    (hb : S.apply (.replaceAround f t gf gt sl ins st) d = .ok db)
+    (hA' : (Step.replaceAround f t gf gt sl ins st).map (Step.replace f1 t1 s1 b1).getMap = some A')
+    (hR' : (Step.replace f1 t1 s1 b1).map (Step.replaceAround f t gf gt sl ins st).getMap = some R')
+    (hab : S.apply A' da = .ok dab) (hba : S.apply R' db = .ok dba)
+    (hn1 : fnorm dab.kids = true) (hn2 : fnorm dba.kids = true) : dab = dba := by
+  have htoks := (commute_replace_around_toks S d da db dab dba f t gf gt ins f1 t1 sl s1 st b1 A' R' hs
+    hsep ha hb hA' hR' hab hba).1
+  obtain ⟨_, h1, _, _⟩ := apply_replace_splice S d da f1 t1 s1 b1 ha
+  have hg := hs.2.2
+  obtain ⟨r1, r2, r3⟩ := rebase_around_separated f t gf gt ins f1 t1 sl s1 st b1 hg h1
+  have root : SameRoot dab dba := by
+    have ra := SameRoot.of_replace S d da f1 t1 s1 b1 ha
+    have rb := SameRoot.of_around S d db f t gf gt sl ins st hb
+    rcases hsep with h | ⟨h, h'⟩ | h
+    · obtain ⟨e1, e2⟩ := r1 h
+      rw [e1] at hA'; rw [e2] at hR'
+      simp only [Option.some.injEq] at hA' hR'
+      subst hA' hR'
+      exact SameRoot.square ra (SameRoot.of_around S _ _ _ _ _ _ _ _ _ hab) rb
+        (SameRoot.of_replace S _ _ _ _ _ _ hba)
+    · obtain ⟨e1, e2⟩ := r2 h h'
+      rw [e1] at hA'; rw [e2] at hR'
+      simp only [Option.some.injEq] at hA' hR'
+      subst hA' hR'
+      exact SameRoot.square ra (SameRoot.of_around S _ _ _ _ _ _ _ _ _ hab) rb
+        (SameRoot.of_replace S _ _ _ _ _ _ hba)
+    · obtain ⟨e1, e2⟩ := r3 h
+      rw [e1] at hA'; rw [e2] at hR'
+      simp only [Option.some.injEq] at hA' hR'
+      subst hA' hR'
+      exact SameRoot.square ra (SameRoot.of_around S _ _ _ _ _ _ _ _ _ hab) rb
+        (SameRoot.of_replace S _ _ _ _ _ _ hba)
+  exact root.eq_of_toks htoks.symm hn1 hn2
+
+/-- **convergence, two separated replace-around steps** (the second one after the first one or inside
+    its gap; exchange the roles for the other two positions): whenever all four applications succeed,
+    both orders give the same tokens, hence (normal form) the same document -/
+theorem commute_around_around (S : Schema) (d da db dab dba : Node)
+    (f t gf gt ins f' t' gf' gt' ins' : Nat) (sl sl' : Slice) (st st' : Bool) (A' B' : Step)
+    (hs : AroundShape f t gf gt sl ins) (hs' : AroundShape f' t' gf' gt' sl' ins')
+    (hsep : t < f' ∨ (gf < f' ∧ t' < gt))
+    (ha : S.apply (.replaceAround f t gf gt sl ins st) d = .ok da)
+    (hb : S.apply (.replaceAround f' t' gf' gt' sl' ins' st') d = .ok db)
+    (hB' : (Step.replaceAround f' t' gf' gt' sl' ins' st').map
+      (Step.replaceAround f t gf gt sl ins st).getMap = some B')
+    (hA' : (Step.replaceAround f t gf gt sl ins st).map
+      (Step.replaceAround f' t' gf' gt' sl' ins' st').getMap = some A')
+    (hab : S.apply B' da = .ok dab) (hba : S.apply A' db = .ok dba) :
+    ftoks dab.kids = ftoks dba.kids ∧
+    (fnorm dab.kids = true → fnorm dba.kids = true → dab = dba) := by
+  have htoks : ftoks dab.kids = ftoks dba.kids := by
+    rcases hsep with h | ⟨h, h'⟩
+    · exact (commute_around_around_after S d da db dab dba f t gf gt ins f' t' gf' gt' ins' sl sl' st st'
+        A' B' hs hs' h ha hb hB' hA' hab hba).2
+    · exact (commute_around_around_gap S d da db dab dba f t gf gt ins f' t' gf' gt' ins' sl sl' st st'
+        A' B' hs hs' h h' ha hb hB' hA' hab hba).2
+  refine ⟨htoks, fun hn1 hn2 => ?_⟩
+  obtain ⟨r1, r2⟩ := rebase_around_around f t gf gt ins f' t' gf' gt' ins' sl sl' st st' hs.2.2 hs'.2.2
+  have ra := SameRoot.of_around S d da f t gf gt sl ins st ha
+  have rb := SameRoot.of_around S d db f' t' gf' gt' sl' ins' st' hb
+  have root : SameRoot dab dba := by
+    rcases hsep with h | ⟨h, h'⟩
+    · obtain ⟨e1, e2⟩ := r1 h
+      rw [e1] at hA'; rw [e2] at hB'
+      simp only [Option.some.injEq] at hA' hB'
+      subst hA' hB'
+      exact SameRoot.square ra (SameRoot.of_around S _ _ _ _ _ _ _ _ _ hab) rb
+        (SameRoot.of_around S _ _ _ _ _ _ _ _ _ hba)
+    · obtain ⟨e1, e2⟩ := r2 h h'
+      rw [e1] at hA'; rw [e2] at hB'
+      simp only [Option.some.injEq] at hA' hB'
+      subst hA' hB'
+      exact SameRoot.square ra (SameRoot.of_around S _ _ _ _ _ _ _ _ _ hab) rb
+        (SameRoot.of_around S _ _ _ _ _ _ _ _ _ hba)
+  exact root.eq_of_toks htoks hn1 hn2
 
 end PM.C17
